@@ -186,9 +186,9 @@ class Quantity:
         elif ufunc==np.power:
             return Quantity(ufunc(inputs[0].magnitude.value,inputs[1]), inputs[0].baseunits*inputs[1])
         elif ufunc in [np.sin, np.cos, np.tan]:
-            return Quantity(ufunc(inputs[0].to('rad').magnitude.value))
+            return Quantity(ufunc(inputs[0].value('rad')))
         elif ufunc in [np.arcsin, np.arccos, np.arctan]:
-            return Quantity(ufunc(inputs[0].to(None).magnitude.value),'rad')
+            return Quantity(ufunc(inputs[0].value(BaseUnits())),'rad')
         elif ufunc in [np.isnan, np.isnat]:
             return ufunc(inputs[0].magnitude.value)
         else:
@@ -272,17 +272,17 @@ def implements(np_function):
 @implements(np.linspace)
 def linspace(a, b, c, **kwargs):
     if isinstance(a,Quantity):
-        b = b.to(a.baseunits) if isinstance(b,Quantity) else Quantity(b, a.baseunits)
+        b = Quantity(b.value(a.baseunits) if isinstance(b,Quantity) else b, a.baseunits)
     else:
-        a = a.to(b.baseunits) if isinstance(a,Quantity) else Quantity(a, b.baseunits)
+        a = Quantity(a.value(b.baseunits) if isinstance(a,Quantity) else a, b.baseunits)
     return Quantity(np.linspace(a.magnitude.value, b.magnitude.value, c, **kwargs), a.baseunits)
 
 @implements(np.logspace)
 def logspace(a, b, c, **kwargs):
     if isinstance(a,Quantity):
-        b = b.to(a.baseunits) if isinstance(b,Quantity) else Quantity(b, a.baseunits)
+        b = Quantity(b.value(a.baseunits) if isinstance(b,Quantity) else b, a.baseunits)
     else:
-        a = a.to(b.baseunits) if isinstance(a,Quantity) else Quantity(a, b.baseunits)
+        a = Quantity(a.value(b.baseunits) if isinstance(a,Quantity) else a, b.baseunits)
     return Quantity(np.logspace(a.magnitude.value, b.magnitude.value, c, **kwargs), a.baseunits)
 
 @implements(np.absolute)
